@@ -141,30 +141,31 @@ Proof.
       { eapply Permutation_trans; [exact C2|]. apply live_del_perm. exact RP. }
       destruct (e_committed e' || hasAttempts e') eqn:FL.
       * (* the identity stays *)
-        assert (SP : match s_committed se, live_del tok (s_live se) with
-                     | None, [] => (al_del key_eqb (key_of p) s, true, true)
-                     | c, _ => (al_set key_eqb (key_of p) (SEnt c (live_del tok (s_live se))) s, true, false)
-                     end = (al_set key_eqb (key_of p) (SEnt (s_committed se) (live_del tok (s_live se))) s, true, false)).
-        { destruct (s_committed se) eqn:SC; [reflexivity|].
-          destruct (live_del tok (s_live se)) eqn:LD; [|reflexivity].
-          exfalso. apply perm_nil_r in PL.
-          assert (X : true = false).
-          { apply C4. split; [rewrite C1, <- RC; reflexivity|exact PL]. }
-          discriminate. }
-        cbv zeta. rewrite SP. split; [reflexivity|]. split; [|repeat split; reflexivity]. split.
-        -- constructor; proj.
-           ++ apply k_set_nodup. apply (inv_nodup t I).
-           ++ rewrite (al_set_length_present _ _ _ _ (inv_nodup t I) G). apply (inv_count t I).
-           ++ apply (si_dom (t_byMessage t)); [|apply (inv_index t I)].
+        cbv zeta.
+        set (t1 := with_maps t (al_set key_eqb (key_of p) e' (t_byMessage t)) (t_bySession t) (t_count t) (t_next t)).
+        assert (STAY : RCancel true false (t_count t) = RCancel true false (t_count t1)
+                       /\ Sim t1 (al_set key_eqb (key_of p) (SEnt (s_committed se) (live_del tok (s_live se))) s)
+                       /\ t_next t1 = t_next t /\ t_limit t1 = t_limit t /\ t_shards t1 = t_shards t).
+        { split; [reflexivity|]. split; [|repeat split; reflexivity]. split.
+          - constructor; unfold t1; proj.
+            + apply k_set_nodup. apply (inv_nodup t I).
+            + rewrite (al_set_length_present _ _ _ _ (inv_nodup t I) G). apply (inv_count t I).
+            + apply (si_dom (t_byMessage t)); [|apply (inv_index t I)].
               intro k0. rewrite has_key_set. split; [intro H; right; exact H|].
               intros [H|H]; [subst k0; unfold has_key; rewrite G; discriminate|exact H].
-           ++ intros k0 e0. destruct (key_eq_dec (key_of p) k0) as [E|E].
-              ** subst k0. rewrite k_get_set_same. intro H. inversion H. subst e0. split; [|exact KV].
-                 constructor; [exact C3|apply C5; reflexivity|exact CK|].
-                 intros x Hx. apply (tokens_after_del _ _ _ C2) in Hx. apply B. apply Hx.
-              ** rewrite k_get_set_other by exact E. apply (inv_entries t I).
-           ++ apply (inv_limit t I).
-        -- proj. apply rel_set; [exact R|]. split; cbn [s_committed s_live]; [rewrite C1; exact RC|exact PL].
+            + intros k0 e0. destruct (key_eq_dec (key_of p) k0) as [E|E].
+              * subst k0. rewrite k_get_set_same. intro H. inversion H. subst e0. split; [|exact KV].
+                constructor; [exact C3|apply C5; reflexivity|exact CK|].
+                intros x Hx. apply (tokens_after_del _ _ _ C2) in Hx. apply B. apply Hx.
+              * rewrite k_get_set_other by exact E. apply (inv_entries t I).
+            + apply (inv_limit t I).
+          - unfold t1; proj. apply rel_set; [exact R|]. split; cbn [s_committed s_live]; [rewrite C1; exact RC|exact PL]. }
+        destruct (s_committed se) eqn:SC; [exact STAY|].
+        destruct (live_del tok (s_live se)) eqn:LD; [|exact STAY].
+        exfalso. apply perm_nil_r in PL.
+        assert (X : true = false).
+        { apply C4. split; [rewrite C1, <- RC; reflexivity|exact PL]. }
+        discriminate.
       * (* the last reservation of an uncommitted identity: the identity goes *)
         destruct C4 as [C4 _]. destruct (C4 eq_refl) as [FL1 FL2].
         rewrite FL2 in PL. apply Permutation_nil in PL.
